@@ -248,6 +248,23 @@ add("C19", "fault_enumeration",
     "line granularity, context bound 1; timer intervals scaled 1 s -> 20 ms",
     "DESIGN.md 3/C19")
 
+add("C20", "exploration",
+    "byte-snapshot immutability monitor, memory-layout sweep, caller-array "
+    "scribbling (aliasing), history replay against fresh objects, attribute "
+    "update monitor",
+    "Every caller array and the public attributes of caller parameter "
+    "objects are snapshotted before and compared after the library calls of "
+    "8 API groups; the same values are passed C-ordered, F-ordered, as "
+    "transposed view, strided slice, read-only, real dtype and nested list; "
+    "caller arrays are overwritten after objects were built from them; "
+    "random sequences of computations on shared objects are compared with "
+    "replays on fresh equal objects; after changing alpha, temperature, "
+    "cutoff, zeta, cutoff_type or j_function a correlations object must "
+    "answer like a fresh one in all methods while baths/Tempo objects built "
+    "earlier are unaffected; PtTebdParameters setters vs an existing PtTebd.",
+    "tensor-network results are reproducible only to the truncation "
+    "tolerance (2e-6), exact paths to 1e-12", "DESIGN.md 3/C20")
+
 NOT_APPLICABLE = []
 
 
